@@ -121,7 +121,16 @@ def _diagnostic_before_exit(b, bb, t):
     """The call writes to standard error and every path from it ends in process::exit: the documented
     'print the message, ignore a failing stderr, exit' idiom."""
     f = fn_of(t) or {}
-    if not common.is_io_write_call(t) or "Stderr" not in (f.get("self_ty", "") + " ".join(f.get("args", []))):
+    direct = common.is_io_write_call(t) and "Stderr" in (f.get("self_ty", "") + " ".join(f.get("args", [])))
+    # or a same-crate message writer that is handed standard error and does nothing but write to it
+    via_helper = False
+    if not direct and f.get("local"):
+        callee = b.crate.by_id.get(f.get("resolved") or f.get("def"))
+        to_stderr = any(is_place(a) and "Stderr" in b.local_ty(a["p"]["l"]) for a in t["args"]) or "Stderr" in " ".join(f.get("args", []))
+        if callee is not None and to_stderr:
+            calls = [tt for _, tt in callee.calls()]
+            via_helper = bool(calls) and all(common.is_io_write_call(tt) or "fmt::Arguments" in (fn_of(tt) or {}).get("def", "") or "fmt::rt::Argument" in (fn_of(tt) or {}).get("def", "") for tt in calls)
+    if not direct and not via_helper:
         return False
     if t["target"] is None:
         return False
